@@ -104,6 +104,10 @@ def hashMap (m : List (Bytes × Bytes)) : Int :=
   let enc := fun (acc : Nat) (bs : Bytes) => bs.foldl (fun a c => a * 259 + (c.toNat + 3)) acc
   ((m.foldl (fun acc kv => (enc ((enc acc kv.1) * 259 + 1) kv.2) * 259 + 2) 1 : Nat) : Int)
 
+/-- square root rounded down to three decimals (any function does: the SQL side and the direct reading share it) -/
+def sqrtMilli (x : Rat) : Rat :=
+  if x ≤ 0 then 0 else ((Nat.sqrt (x * 1000000).floor.toNat : Nat) : Int) / (1000 : Int)
+
 def oracles : Oracles where
   reMatch := fun pat s => isSub pat s
   jsonLabels := docLabels
@@ -112,6 +116,7 @@ def oracles : Oracles where
   lower := fun s => s.map (fun c => if 65 ≤ c ∧ c ≤ 90 then c + 32 else c)
   toFloat := fun s => (decRat? s).getD 0
   cityHash := hashMap
+  sqrt := sqrtMilli
 
 def fields (s : String) : List String := s.splitOn ":"
 
